@@ -105,7 +105,7 @@ func stockReader(kind string, variant int, rec *recorder, out *syncBuf) sdkmetri
 		if variant%2 == 1 {
 			o = append(o, sdkmetric.WithProducer(nopProducer{}))
 		}
-		return sdkmetric.NewPeriodicReader(&countMetricExp{0, e, rec}, o...)
+		return sdkmetric.NewPeriodicReader(&countMetricExp{id: 0, inner: e, rec: rec}, o...)
 	}
 	return sdkmetric.NewPeriodicReader(nil, sdkmetric.WithInterval(time.Hour), sdkmetric.WithTimeout(sdkTimeout))
 }
